@@ -23,10 +23,16 @@ pub mod c21;
 pub mod c24;
 pub mod c25;
 pub mod c26;
+pub mod c27;
+pub mod c28;
+pub mod c29;
+pub mod c30;
+pub mod lspcommon;
 pub mod parfp;
 pub mod c31;
 pub mod c32;
 pub mod c33;
+pub mod c34;
 pub mod conv;
 pub mod tree;
 
@@ -58,9 +64,14 @@ pub fn dispatch(ctx: &Ctx) -> i32 {
         "C24" => c24::run(ctx),
         "C25" => c25::run(ctx),
         "C26" => c26::run(ctx),
+        "C27" => c27::run(ctx),
+        "C28" => c28::run(ctx),
+        "C29" => c29::run(ctx),
+        "C30" => c30::run(ctx),
         "C31" => c31::run(ctx),
         "C32" => c32::run(ctx),
         "C33" => c33::run(ctx),
+        "C34" => c34::run(ctx),
         other => {
             eprintln!("unknown property {other}");
             2
